@@ -19,7 +19,8 @@ RULE = ("one run = one generated document, 1-3 (line, clone) pairs of any record
         "interleaved edits per pair; distinct = distinct (record type, edit kind, side) tuples x line digest")
 PROBES = ["connected_original", "standalone_original", "edit_clone", "edit_original", "inplace_list",
           "inplace_cigar", "inplace_oriented", "inplace_json", "inplace_numarray", "header_clone",
-          "edit_applied", "inplace_lastpos", "header_clone_merged"]
+          "edit_applied", "inplace_lastpos", "header_clone_merged",
+          "clone_of_complement", "clone_of_line_with_line_objects"]
 EDITS = ["set_tag", "del_tag", "set_pos", "list_append", "list_pop", "cigar_op", "oriented", "json_inplace",
          "numarray_append", "fieldarray_append", "set_datatype", "trace_inplace", "list_item_inplace", "lastpos_inplace"]
 
@@ -36,7 +37,7 @@ def gen(streams, tier, i):
     ops = []
     for _ in range(er.randint(1, 3)):
         ops.append({"op": "clone", "i": er.randrange(1000), "connected": er.random() < 0.7,
-                    "header": er.random() < 0.12})
+                    "header": er.random() < 0.12, "refs": er.choice(["text", "text", "objects", "complement"])})
         if ops[-1]["header"] and er.random() < 0.6:
             # the clone of the header, given tags of its own, is handed back to add_line (merged into the header):
             # it stays the caller's object, later in-place edits of it do not reach the Gfa
@@ -45,6 +46,65 @@ def gen(streams, tier, i):
             ops.append({"op": "edit", "side": er.choice(["clone", "orig"]), "e": er.choice(EDITS),
                         "j": er.randrange(1000), "v": er.choice([1, 7, "zz", "+", "-", "A", 2.5])})
     return {"cfg": {"version": doc["version"], "vlevel": cfg.choice([0, 1, 1, 2, 3])}, "lines": doc["lines"], "ops": ops}
+
+
+def gfa_lines_held(line):
+    """reference fields of a detached line that hold Line objects instead of identifiers"""
+    out = []
+    for f in line.positional_fieldnames:
+        o = core.call(line.get, f)
+        if not o.ok:
+            continue
+        vals = o.value if isinstance(o.value, list) else [o.value]
+        for x in vals:
+            ln = x.line if isinstance(x, gfapy.OrientedLine) else x
+            if isinstance(ln, gfapy.Line):
+                out.append(f)
+                break
+    return out
+
+
+def give_line_objects(line, g, how, st):
+    """a stand-alone line whose reference fields hold the Gfa's own Line objects (what link.complement()
+    returns for a connected link, or what a caller gets by assigning lines to the fields of a new line)"""
+    if how == "complement" and line.record_type == "L":
+        src = None
+        for l in g.dovetails:
+            if l.record_type == "L" and not l.virtual and ob.line_text(l) == ob.line_text(line):
+                src = l
+                break
+        if src is None:
+            return line
+        o = core.call(src.complement)
+        if o.ok:
+            st.count("probe.clone_of_complement")
+            return o.value
+        return line
+    if how != "objects":
+        return line
+    done = False
+    for f in getattr(line.__class__, "REFERENCE_FIELDS", []):
+        o = core.call(line.get, f)
+        if not o.ok or isinstance(o.value, list):
+            continue
+        v = o.value
+        name = v.name if isinstance(v, gfapy.OrientedLine) else v
+        if not isinstance(name, str):
+            continue
+        tgt = core.call(g.segment, name)
+        if not tgt.ok or tgt.value is None:
+            continue
+        new = gfapy.OrientedLine(tgt.value, v.orient) if isinstance(v, gfapy.OrientedLine) else tgt.value
+        if core.call(line.set, f, new).ok:
+            done = True
+    if done:
+        st.count("probe.clone_of_line_with_line_objects")
+    return line
+
+
+def read_all(line):
+    for f in list(line.positional_fieldnames) + list(line.tagnames):
+        core.call(line.get, f)
 
 
 def sstr(l):
@@ -221,7 +281,7 @@ def run(scn, st):
                     if not oo.ok:
                         connected = True
                     else:
-                        orig = oo.value
+                        orig = give_line_objects(oo.value, g, op.get("refs", "text"), st)
             st.count("probe.connected_original" if connected else "probe.standalone_original")
             if orig.virtual:
                 st.count("probe.clone_of_virtual")
@@ -249,6 +309,24 @@ def run(scn, st):
             if sstr(orig) != pre_s or digest(ob.observe(g)) != pre_g:
                 raise core.Violation("clone-modified-original", "cloning %r changed the original or its Gfa" % pre_s,
                                      rt=orig.record_type)
+            held = gfa_lines_held(clone)
+            if held:
+                raise core.Violation("clone-not-detached", "the clone of %r holds line objects, not identifiers, in %r" %
+                                     (pre_s, held), rt=orig.record_type)
+            # reading is not editing: after the fields of one of the two were read (and lazily parsed), then those
+            # of the other, the two still compare equal, both ways
+            if id(orig) not in dirty:
+                for who in (clone, orig):
+                    read_all(who)
+                    st.count("oracle.equal_after_reads")
+                    e1 = core.call(lambda: clone == orig)
+                    e2 = core.call(lambda: orig == clone)
+                    if not (e1.ok and e2.ok and e1.value and e2.value) and sstr(clone) == sstr(orig) == pre_s:
+                        raise core.Violation("clone-not-equal-after-read",
+                                             "clone of %r: after the fields of the %s were read, clone == original is %s / %s" %
+                                             (pre_s, "clone" if who is clone else "original",
+                                              e1.value if e1.ok else e1.excname, e2.value if e2.ok else e2.excname),
+                                             rt=orig.record_type)
             continue
         if op["op"] == "merge_clone" and orig is not None and clone is not None and orig is g.header:
             st.count("probe.header_clone_merged")
